@@ -54,6 +54,20 @@ def check(report, tier, seed):
     for i in range(n):
         cases["p%d" % i] = {"hcl": biased_program(rng), "yo": gen.yo_image(rng, 10 * cycles + 30), "cycles": cycles,
                             "flags": rng.choice(["-", "q", "d"]), "timeout": 9999}
+    # programs with one driver fault each (the classes of C09): the checker rejects them; should one pass checking
+    # all the same, it is simulated like any accepted program and must not misbehave either
+    import props.c09 as c09
+    nf = 0
+    while nf < (80 if tier == "quick" else 1500):
+        g = gen.ProgGen(rng, n_wires=rng.randint(1, 6), depth=2, allow_div=False)
+        r = c09.inject(rng, g.build(), force_kind=rng.choice(["dup_bank_signal", "dup_bank_signal", "redecl_bank_signal", "dup_register",
+                                                             "assign_twice", "assign_bank_out", "assign_builtin_out", "assign_const",
+                                                             "redecl_wire", "redecl_as_const", "partial", "assign_twice_in_chain"]))
+        if r is None or r[1] in (None, "MODEL"):
+            continue
+        cases["f%d" % nf] = {"hcl": "\n".join(r[0]) + "\n", "yo": gen.yo_image(rng, 10 * cycles + 30), "cycles": cycles,
+                             "flags": "-", "timeout": 9999, "expect_accept": False}
+        nf += 1
     total = collections.Counter()
     for profile in ("dev", "noovf"):
         impl, model, stats = simcheck.run_sim_cases(report, cases, profile=profile, key_prefix="safety-" + profile)
@@ -75,7 +89,7 @@ def check(report, tier, seed):
             total[profile + ".expr_" + k] = v
     report.coverage["evaluations"] = 2 * (len(cases) + len(ecases))
     report.coverage["distinct_nontrivial"] = len(set(c["hcl"] for c in cases.values())) + len(set(gen.to_sexpr(c["ast"]) for c in ecases))
-    report.coverage["rule"] = ("random accepted programs plus wires built from the sites the property names (-x with x = 0, x[128..128], (e0 .. w128), "
+    report.coverage["rule"] = ("random accepted programs (and one-fault programs of the C09 classes, which must be rejected - or, if ever accepted, behave) plus wires built from the sites the property names (-x with x = 0, x[128..128], (e0 .. w128), "
                                "mux with selected unsized arm feeding .. and -, shifts by >= 128, zero-width values, zero divisors) on random images, "
                                "%d cycles, in the overflow-checking and the wrapping build; random well-typed expressions in explicit environments; "
                                "oracle: no panic, no run-time error but division by zero, every value fits its width, and equality with the model" % cycles)
